@@ -146,13 +146,13 @@ pub fn run_c09(ctx: &Ctx) -> (Report, String) {
     }
     {
         // lattice + scrambled-counter patterns through both paths
-        let n_chunks = ctx.n(512, 4352) as usize; // chunks of 4096 patterns per path per strength group
+        let n_chunks = if ctx.miri() { 16 } else { ctx.n(512, 4352) as usize }; // chunks of 4096 patterns per path per strength group
         let reps = par_shards(n_chunks, ctx.threads, |c| {
             let mut rep = Report::new();
             let key = splitmix(ctx.seed ^ 0xC09) as u32;
             // widths/heights chosen so that vector chunks and scalar remainders both occur
-            let n = 4096 + 7;
-            let lattice = c < 256;
+            let n = if ctx.miri() { 16 + 7 } else { 4096 + 7 };
+            let lattice = c < 256 && !ctx.miri();
             let pats: Vec<u32> = (0..n as u32)
                 .map(|i| {
                     if lattice {
@@ -165,7 +165,7 @@ pub fn run_c09(ctx: &Ctx) -> (Report, String) {
                     }
                 })
                 .collect();
-            for s in 1..=12u8 {
+            for s in (1..=12u8).filter(|s| !ctx.miri() || s % 4 == (c % 4) as u8) {
                 let (img, w) = horiz_image(&pats);
                 rep.evaluations += 1;
                 if compare(&img, w, s, &mut rep, &format!("horizontal kernel chunk {} ({})", c, if lattice { "lattice" } else { "scrambled" }), "C09") {
@@ -200,7 +200,7 @@ pub fn run_c09(ctx: &Ctx) -> (Report, String) {
     } else {
         40
     };
-    let strengths: Vec<u8> = if thorough { (1..=12).collect() } else { vec![1, 6, 12] };
+    let strengths: Vec<u8> = if ctx.miri() { vec![6] } else if thorough { (1..=12).collect() } else { vec![1, 6, 12] };
     let reps = par_shards(maxd, ctx.threads, |wi| {
         let w = wi + 1;
         let mut rep = Report::new();
@@ -279,7 +279,7 @@ pub fn run_c16(ctx: &Ctx) -> (Report, String) {
         for h in 0..=maxd {
             let mut d = vec![0u8; w * h];
             rng.fill(&mut d);
-            for s in 1..=12u8 {
+            for s in (1..=12u8).filter(|s| !ctx.miri() || *s as usize % 6 == h % 6) {
                 rep.evaluations += 1;
                 if compare(&d, w, s, &mut rep, &format!("{}x{} strength {}", w, h, s), "C16") {
                     rep.count("calls_ok");
